@@ -112,6 +112,8 @@ class TreeModel(e1_history.Model):
         for p in w.probes:
             if p['kind'] == 'bcast' and not p['done']:
                 p['allowed'] |= {x.label for x in subtree(top(w.comps[p['src']]))}
+            if p['kind'] == 'iprobe' and not p['done'] and w.comps[p['tgt']] in subtree(top(w.comps[p['src']])):
+                p['allowed'].add(p['tgt'])
 
     def apply(self, w, op):
         k = op[0]
@@ -143,6 +145,13 @@ class TreeModel(e1_history.Model):
             w.probes.append({'ev': e, 'kind': 'bcast', 'src': op[1], 'allowed': {x.label for x in subtree(top(c))},
                              'must': False, 'done': False})
             c.fire(e, '*')
+        elif k == 'ifire':
+            # fired on component op[1], addressed to the component INSTANCE op[2] (wherever that one is)
+            c, tgt = comps[op[1]], comps[op[2]]
+            e = Event.create('probe')
+            w.probes.append({'ev': e, 'kind': 'iprobe', 'src': op[1], 'tgt': op[2],
+                             'allowed': ({op[2]} if tgt in subtree(top(c)) else set()), 'must': False, 'done': False})
+            c.fire(e, tgt)
         elif k == 'tick':
             before = len(LOG)
             comps[op[1]].tick()
@@ -155,6 +164,20 @@ class TreeModel(e1_history.Model):
                 for p in w.probes:
                     if p['ev'] is ent[1]:
                         p['done'] = True
+        # an instance-addressed probe whose holder's queue no longer contains it has been dispatched (possibly to nobody)
+        for p in w.probes:
+            if p['kind'] == 'iprobe' and not p['done']:
+                held = False
+                for c in w.comps:
+                    q = getattr(getattr(c, '_queue', None), '_queue', None) or []
+                    for item in q:
+                        try:
+                            if item[2][0] is p['ev']:
+                                held = True
+                        except Exception:  # noqa: BLE001
+                            pass
+                if not held:
+                    p['done'] = True
 
     def enabled(self, hist):
         w = self.build(hist)
@@ -163,7 +186,13 @@ class TreeModel(e1_history.Model):
         for c in comps:
             if c.parent is c and len(c):
                 ops.append(('tick', c.label))
-        if self.probes and sum(1 for p in w.probes if not p['done']) < 2:   # at most two probes in flight (bounds the queues)
+        if self.probes == 'inst':
+            if sum(1 for p in w.probes if not p['done']) < 2:
+                for c in comps:
+                    for t in comps:
+                        if t is not c:
+                            ops.append(('ifire', c.label, t.label))
+        elif self.probes and sum(1 for p in w.probes if not p['done']) < 2:   # at most two probes in flight (bounds the queues)
             for c in comps:
                 ops.append(('fire', c.label))
             for c in comps:
@@ -309,15 +338,15 @@ class TreeModel(e1_history.Model):
 def run(tier, seed, workers):
     if tier == 'quick':
         plan = [(3, (), True, 5), (3, ((1, 0),), True, 6), (3, ((1, 0), (2, 1)), True, 5), (4, ((1, 0), (2, 1), (3, 2)), False, 4),
-                (4, (), False, 4)]
+                (4, (), False, 4), (3, ((1, 0), (2, 1)), 'inst', 4)]
     else:
         plan = [(3, (), True, 7), (3, ((1, 0),), True, 8), (3, ((1, 0), (2, 1)), True, 7), (4, ((1, 0), (2, 1), (3, 2)), False, 7),
-                (4, (), False, 6), (4, ((1, 0), (2, 0)), True, 5)]
+                (4, (), False, 6), (4, ((1, 0), (2, 0)), True, 5), (3, ((1, 0), (2, 1)), 'inst', 6), (3, ((1, 0),), 'inst', 6)]
     total = core.Stats()
     states = 0
     for n, init, probes, depth in plan:
         st = e1_history.bfs(TreeModel(n, init, probes), depth, workers, seed, max_states=600000)
-        tag = 'pool%d_init%s%s' % (n, ''.join('%d>%d' % (p, c) for c, p in init) or 'flat', '' if probes else '_noprobes')
+        tag = 'pool%d_init%s%s' % (n, ''.join('%d>%d' % (p, c) for c, p in init) or 'flat', '' if probes is True else ('_instance-addressed' if probes else '_noprobes'))
         st.bounds = {tag: dict(st.bounds)}
         states += st.states
         total.merge(st)
